@@ -255,6 +255,7 @@ def kindOf : ApiAttr → String
   | .unknown _ 14 _ => "next-hop"          -- a raw MP_REACH_NLRI is a next-hop carrier
   | .originatorId _ => "originator-id"
   | .clusterList _ => "cluster-list"
+  | .extCommunities _ => "extended-communities"
   | _ => "attribute"
 
 /-- every attribute that was sent is listed; anything listed beyond that is one of the two mandatory
@@ -324,10 +325,18 @@ def check : Case → Obs → Verdict
         (match l with
          | [o] => if o.api = x then .ok else .fail "listed-differs-from-added"
          | _ => .fail "unexpected-observation")
-  | .grpc _ _ _, .addRefused => .ok
-  | .grpc _ _ _, .listPanic => .fail "add-or-list-path-panics"
-  | .grpc x sent vrps, .listed n ys v =>
-      if n = x then seq (checkPath sent ys) (checkRpki x sent vrps v) else .fail "listed-differs-from-added"
+  | .grpc .., .addRefused => .ok
+  | .grpc .., .listPanic => .fail "add-or-list-path-panics"
+  -- (what is listed after DeletePath is compared between model and implementation only: the add / delete
+  -- life cycle is not this property's subject)
+  | .grpc x sent vrps vrf, .listed n ys v _ =>
+      if n = x then
+        -- (the VRF view is produced by `collect_vrf_paths`: what it leaves out has its own clause)
+        (if vrf then (match checkPath sent ys with
+                      | .fail "listed-path-lacks-extended-communities" => .fail "vrf-listed-path-lacks-extended-communities"
+                      | v => v)
+         else seq (checkPath sent ys) (checkRpki x sent vrps v))
+      else .fail "listed-differs-from-added"
   | .explore _, .exploreOk => .ok
   | .explore k, .exploreFail w => .fail ("explore-" ++ k ++ "-" ++ w)
   | _, _ => .fail "unexpected-observation"
